@@ -243,6 +243,7 @@ def spec_alphabet(i):
         "abstract": lambda: Interface("abstract", bodies=[Proc("function", f"ai{s}", args=[Var("x", "realdp", ["intent_in"])], result=f"air{s}")]),
         "explicit": lambda: Interface("explicit", bodies=[Proc("subroutine", f"ex{s}", args=[Var("n", "integer", ["value"])], bindc=f"c_ex{s}")]),
         "enum": lambda: Enum([(f"ea{s}", None), (f"eb{s}", "5"), (f"ec{s}", None)]),
+        "enum-expr": lambda: Enum([(f"ka{s}", "1_c_int"), (f"kb{s}", None), (f"kc{s}", f"ka{s} + 2"), (f"kd{s}", None), (f"ke{s}", "7_8")]),
         "common": lambda: Common(f"cb{s}", [Var(f"cx{s}", "integer"), Var(f"cy{s}", "integer", shape="(2)")]),
         "namelist": lambda: Namelist(f"nl{s}", [Var(f"nx{s}", "integer"), Var(f"ny{s}", "real")]),
     }
@@ -290,7 +291,7 @@ def _register_dynamic_typespecs():
 _register_dynamic_typespecs()
 
 SPEC_KEYS = ["var", "emptytype", "fulltype", "generic-modproc", "generic-bodies", "operator", "assignment", "abstract", "explicit",
-             "enum", "common", "namelist"]
+             "enum", "common", "namelist", "enum-expr"]
 PROC_KEYS = ["sub", "fn", "fn-result", "sub-internal", "fn-typed"]
 
 
